@@ -35,6 +35,8 @@ RULE_DOC = {"title": "Valid rule", "logsource": {"category": "c"}, "detection": 
 
 CORR_DOC = {"title": "Valid correlation", "correlation": {"type": "event_count", "rules": ["base_rule", "11111111-1111-4111-8111-111111111111"],
                                                           "group-by": ["g"], "timespan": "5m", "condition": {"gte": 2}}}
+NAMED_RULE_DOC = {"title": "Base rule", "name": "base_rule", "id": "11111111-1111-4111-8111-111111111111", "logsource": {"category": "c"},
+                  "detection": {"sel": {"fieldA": "a"}, "condition": "sel"}}
 FULL_RULE_DOC = {"title": "Base rule", "name": "base_rule", "logsource": {"category": "process_creation", "product": "windows"},
                  "detection": {"sel": {"fieldA": "a"}, "condition": "sel"}}
 
@@ -88,9 +90,11 @@ def _drive(case, doc):
         docs = [RULE_DOC, doc]
     elif case["kind"] == "rule*+corr":
         docs = [doc, CORR_DOC]
+    elif case["kind"] == "rule+corr*":
+        docs = [NAMED_RULE_DOC, doc]
     elif case["kind"] == "rule+filter*":
         docs = [FULL_RULE_DOC, doc]
-    resolve = case["kind"] in ("rule*+corr", "rule+filter*")
+    resolve = case["kind"] in ("rule*+corr", "rule+corr*", "rule+filter*")
     o["coll_strict"] = _load(lambda: SigmaCollection.from_dicts(copy.deepcopy(docs), resolve_references=resolve), lambda x: [])
     o["coll_collect"] = _load(lambda: SigmaCollection.from_dicts(copy.deepcopy(docs), collect_errors=True, resolve_references=resolve), coll_errors)
     if case["kind"] in ("rule", "corr", "filter"):
